@@ -6,7 +6,8 @@ Letters/outputs: see harness/wblib.py (flat per-master M->S fields, per-slave S-
 import random, time
 from explore import Job, run_jobs, Disagreement, impl_step, replay_with_monitor, shrink
 import wblib
-from wblib import (DecAll, DecHi, DecSet, DecRegion, make_shared, make_xbar, make_p2p, small_alphabet,
+from wblib import (DecAll, DecHi, DecSet, DecRegion, make_shared, make_xbar, make_p2p, make_arbiter, make_decoder,
+                   small_alphabet,
                    m_req, s_ack, s_silent, split_outs)
 
 FMT = ("per master: cyc stb we adr dat_w sel cti bte; per slave: ack err dat_r  "
@@ -26,7 +27,7 @@ def _alpha(n, m, level):
     (idle/request on every address, silent/ack/err); 0: reduced (three addresses, silent/ack);
     -1: reduced, and at most one slave acknowledges per cycle."""
     if level == 2:
-        return small_alphabet(n, m, full=True, slave_full=True)
+        return small_alphabet(n, m, full=True, slave_full=(n * m <= 2))
     if level == 1:
         return small_alphabet(n, m)
     keep = []
@@ -100,7 +101,7 @@ def jobs(tier, seed=0):
         J[-1].cost = cost
 
     def B(mk, cycles=None):
-        J.append(Job("B", mk, cycles=cycles or (1500 if quick else 15000), runs=1 if quick else 2))
+        J.append(Job("B", mk, cycles=cycles or (1500 if quick else 10000), runs=1 if quick else 2))
         J[-1].cost = J[-1].kw["cycles"] * J[-1].kw["runs"] * 4
 
     # ---- mode A: exhaustive product exploration -------------------------------------------------------------
@@ -126,6 +127,11 @@ def jobs(tier, seed=0):
                     A(lambda n=n, m=m, decs=decs, reg=reg, level=level, name=name:
                       make_xbar(n, decs, register=reg, alphabet=_alpha(n, m, level), name=name,
                                 timeout_arg=2 if reg else None), _cost("xbar", n, m, reg, None, level))
+    # the two building blocks on their own (Arbiter = n x 1 without decoder, Decoder = 1 x m without arbiter)
+    A(lambda: make_arbiter(3, alphabet=_alpha(3, 1, 1)), 2000)
+    A(lambda: make_arbiter(2, alphabet=_alpha(2, 1, 2)), 3000)
+    A(lambda: make_decoder(MAPS[3][1][1], register=True, alphabet=_alpha(1, 3, 2)), 4000)
+    A(lambda: make_decoder(MAPS[2][0][1], register=False, alphabet=_alpha(1, 2, 2)), 500)
     A(lambda: make_shared(2, OVERLAP, register=True, timeout=2, alphabet=_alpha(2, 2, 1), name="Shared 2x2 overlap reg to=2 a1"))
     A(lambda: make_xbar(2, OVERLAP, register=False, alphabet=_alpha(2, 2, 1), name="Crossbar 2x2 overlap a1"))
     A(lambda: make_shared(2, MAPS[2][0][1], timeout=0, alphabet=_alpha(2, 2, 1), name="Shared 2x2 cover to=0 a1"))
@@ -307,9 +313,11 @@ def _corpus(ctx, all_jobs):
             r = replay_with_monitor(inst2, trace)
             fired = r is not None
             if fired != bool(item["expect_monitor"]):
-                dis.append(Disagreement(inst2, trace, len(trace) - 1, None, None,
-                                        kind="monitor:corpus %s: monitor %s" % (os.path.basename(path),
-                                                                                 "fired: %s" % (r,) if fired else "did not fire")))
+                d = Disagreement(inst2, trace, len(trace) - 1, None, None,
+                                 kind="monitor:corpus %s: monitor %s" % (os.path.basename(path),
+                                                                          "fired: %s" % (r,) if fired else "did not fire"))
+                d.make_spec = item["make"]
+                dis.append(d)
         ctx.cov.add_cases("corpus " + os.path.basename(path), len(trace), len(trace))
     return dis
 
@@ -340,9 +348,14 @@ def correspond(ctx):
     dis += _corpus(ctx, ctx.jobs)
     dis += _rr_cases(ctx)
     dis += _region_decoder_cases(ctx)
+    dis += _self_test(ctx)
+    ctx.log("corpus, RoundRobin table, SoCRegion.decoder cases, self-test done; %d fabric jobs" % len(ctx.jobs))
     d2, bad = run_jobs(ctx, ctx.jobs)
     dis += d2
-    dis += _self_test(ctx)
+    na = sum(1 for i in ctx.cov.instances if i.get("mode") == "A")
+    ctx.log("mode A: %d instances (%d exhaustive), mode B: %d runs" % (
+        na, sum(1 for i in ctx.cov.instances if i.get("mode") == "A" and i.get("exhaustive")),
+        sum(1 for i in ctx.cov.instances if i.get("mode") == "B")))
     return dis
 
 
@@ -405,6 +418,13 @@ def search(ctx, disagreements, proof_info):
         if isinstance(d, dict):
             return dict(d, letter_format=FMT)
         cand = {"instance": d.inst_name, "trace": [list(l) for l in d.trace], "monitor": kind[8:], "letter_format": FMT}
+        if getattr(d, "make_spec", None):
+            cand["make"] = d.make_spec
+            inst = _make_from_spec(d.make_spec)
+            r = replay_with_monitor(inst, [tuple(l) for l in d.trace])
+            if r:
+                cand["trace"] = [list(l) for l in d.trace[:r[0] + 1]]
+                cand["monitor"] = r[1]
         j = getattr(d, "job", None)
         if j is not None and time.time() < deadline:
             # minimise: drop cycles while the monitor still fires on the real code
@@ -475,22 +495,51 @@ def probes(ctx):
 
 
 def replay(ctx, payload):
+    """`./check C06 --replay FILE`: re-execute the failing input on the real code with the property oracle."""
     fi = payload.get("failing_input") or {}
     name = fi.get("instance")
+    if name == "SoCRegion.decoder" and "case" in fi:
+        from migen import Signal
+        from litex.soc.integration.soc import SoCRegion
+        from litex.soc.interconnect import wishbone
+        from litex.gen.sim.core import Evaluator
+        origin, size, dw, aw, adr = fi["case"]
+        bus = wishbone.Interface(data_width=dw, address_width=aw)
+        a = Signal(bus.adr_width)
+        ev = Evaluator({}, {})
+        ev.signal_values[a] = adr
+        r = SoCRegion(origin=origin, size=size).decoder(bus)(a)
+        val = 1 if r is True else int(bool(ev.eval(r)))
+        p2 = 1 << (size - 1).bit_length()
+        spec = 1 if origin <= adr * (dw // 8) < origin + p2 else 0
+        print("SoCRegion(origin=%#x, size=%#x).decoder at word address %#x: code %d, specification %d" % (origin, size, adr, val, spec))
+        if val != spec:
+            print("VIOLATION property=%s replay=(replayed)" % ctx.prop)
+            return 1
+        return 0
     if not name or "trace" not in fi:
         print("replay file carries no failing trace; content:", {k: fi.get(k) for k in fi} or payload.get("disagreements", [])[:2])
         return 1
     trace = [tuple(l) for l in fi["trace"]]
-    for tier in ("quick", "thorough"):
-        for job in jobs(tier, payload.get("seed", 0)):
-            inst = job.make()
-            if inst.name == name:
-                r = replay_with_monitor(inst, trace)
-                if r:
-                    print("cycle %d: %s" % r)
-                    print("VIOLATION property=%s replay=(replayed)" % ctx.prop)
-                    return 1
-                print("trace no longer violates the property on the current tree")
-                return 0
-    print("instance %r not found" % name)
-    return 2
+    insts = []
+    if fi.get("make"):
+        insts.append(_make_from_spec(fi["make"]))
+    else:
+        for tier in ("quick", "thorough"):
+            for job in jobs(tier, payload.get("seed", 0)):
+                inst = job.make()
+                if inst.name == name:
+                    insts.append(inst)
+                    break
+            if insts:
+                break
+    if not insts:
+        print("instance %r not found" % name)
+        return 2
+    r = replay_with_monitor(insts[0], trace)
+    if r:
+        print("cycle %d: %s" % r)
+        print("VIOLATION property=%s replay=(replayed)" % ctx.prop)
+        return 1
+    print("trace no longer violates the property on the current tree")
+    return 0
